@@ -35,6 +35,8 @@ def evaluate(pid, tier, tree, seed=0, write=False, skip_a3=False):
 
 def run_property(pid, tier, seed=0, write=True, tree=None):
     t0 = time.time()
+    if os.environ.get("VERIF_NOWRITE"):
+        write = False       # used when trying the checks on a deliberately broken tree (tools/seedrun.sh)
     try:
         if tree is None:
             tree = SourceTree.load()
